@@ -398,11 +398,12 @@ class Norm:
         elif k == "PTupleStruct":
             v = cshort(p.get("path", "?"))
             for i, q in enumerate(p["ps"]):
-                self._bind_pat(q, origin, path + (("variant", v, str(i)),))
+                self._bind_pat(q, origin, path + ((("tuple", i) if _is_struct_pat(p) else ("variant", v, str(i))),))
         elif k == "PStruct":
             v = cshort(p.get("path", "?"))
             for f in p["fields"]:
-                self._bind_pat(f["p"], origin, path + (("variant", v, f["name"]),))
+                # destructuring a plain struct is field access; only enum variants need the `@Variant.field` projection
+                self._bind_pat(f["p"], origin, path + ((("sfield", f["name"]) if _is_struct_pat(p) else ("variant", v, f["name"])),))
         elif k == "Or":
             for q in p["ps"]:
                 self._bind_pat(q, origin, path)
@@ -967,6 +968,11 @@ class Norm:
                     t = ("index", t[2][0], ("lit", "0"))
                 else:
                     t = ("proj", t, v, acc)
+            elif step[0] == "sfield":
+                if t[0] == "struct" and t[3] is not None and step[1] in t[3]:
+                    t = t[3][step[1]]
+                else:
+                    t = ("field", t, step[1])
             elif step[0] == "index":
                 t = ("index", t, ("lit", str(step[1])))
             elif step[0] == "rindex":
@@ -1247,7 +1253,8 @@ class Norm:
                     else:
                         tail = ("lit", "()")
                 if id(e) in self._ret_blocks and all(v[0] == "ret" and c != ("lit", "match") for c, v in early2):
-                    return _unreturn(("early", early2, tail))       # guard clauses of the function body are an if / else chain
+                    early2, tail = _guards_to_try(early2, tail)
+                    return _unreturn(("early", early2, tail)) if early2 else tail      # guard clauses of the function body are an if / else chain
                 if id(e) in self._loop_blocks and all(v == ("continue",) and c != ("lit", "match") for c, v in early2):
                     # `if c { continue }` filters of a loop body are an if / else chain around the rest of the body
                     return _unreturn(("early", [(c, ("ret", ("lit", "()"))) for c, _v in early2], tail))
@@ -1430,6 +1437,30 @@ def _mk_iflet(pat, scr, then, els):
 
 
 
+def _guards_to_try(early, tail):
+    """let Some(x) = X else { return Err(E) };  ..x..   ==   ..X.ok_or(E)?..      (and `else { return None }` is `X?`)"""
+    out = []
+    subs = []
+
+    def sub_all(t):
+        for src, dst in subs:
+            t = rewrite(t, lambda n, src=src, dst=dst: dst if n == src else None)
+        return t
+    for c, v in early:
+        c, v = (c[0], c[1], sub_all(c[2])) if c[0] in ("iflet", "iflet-not") else sub_all(c), sub_all(v)
+        if c[0] == "iflet-not" and re.fullmatch(r"(v1|Option)::Some\([$_(){}:,\w]*\)", c[1]) and "::" not in c[1][c[1].index("(") :]:
+            X = c[2]
+            payload = ("proj", X, c[1].split("(")[0], "0")
+            if v[0] == "ret" and v[1][0] == "call" and v[1][1] == "Err" and len(v[1][2]) == 1:
+                subs.append((payload, ("try", ("call", "ok_or", [X, v[1][2][0]]))))
+                continue
+            if v[0] == "ret" and v[1] == ("def", "v1::None"):
+                subs.append((payload, ("try", X)))
+                continue
+        out.append((c, v))
+    return out, sub_all(tail)
+
+
 def _unreturn(t):
     """value of an inlined function body: `return v` becomes the value v"""
     if t[0] == "ret":
@@ -1517,6 +1548,12 @@ def as_for_loop(n):
     return None
 
 
+def _is_struct_pat(p):
+    """the pattern destructures a plain struct (irrefutable at this level), not an enum variant"""
+    dk = str(p.get("dk", ""))
+    return dk == "Struct" or dk.startswith("Ctor(Struct") or dk.startswith("SelfTy") or dk.startswith("SelfCtor")
+
+
 def pat_repr(p):
     k = p.get("k")
     if k == "Wild":
@@ -1528,9 +1565,9 @@ def pat_repr(p):
     if k == "PTuple":
         return "(" + ",".join(pat_repr(q) for q in p["ps"]) + ")"
     if k == "PTupleStruct":
-        return cshort(p.get("path", "?")) + "(" + ",".join(pat_repr(q) for q in p["ps"]) + ")"
+        return ("" if _is_struct_pat(p) else cshort(p.get("path", "?"))) + "(" + ",".join(pat_repr(q) for q in p["ps"]) + ")"
     if k == "PStruct":
-        return cshort(p.get("path", "?")) + "{" + ",".join(f["name"] + ":" + pat_repr(f["p"]) for f in p["fields"]) + "}"
+        return ("" if _is_struct_pat(p) else cshort(p.get("path", "?"))) + "{" + ",".join(f["name"] + ":" + pat_repr(f["p"]) for f in p["fields"]) + "}"
     if k == "Or":
         return "|".join(sorted(pat_repr(q) for q in p["ps"]))
     if k == "PExpr":
